@@ -21,13 +21,16 @@ pub(crate) fn impl_inverse_uint_scale(n: &BigUint, scale: i64, ctx: &Context) ->
 
     let mut prev_result = BigDecimal::one();
     let mut result = BigDecimal::zero();
+    let mut prev_running_result = BigDecimal::zero();
 
     // TODO: Prove that we don't need to arbitrarily limit iterations
     // and that convergence can be calculated
     #[cfg(bigdecimal_verif)]
     let mut verif_iteration_count: u32 = 0;
 
-    while prev_result != result {
+    // iterate until the working-precision value is stable too: at low precision the
+    // rounded result can repeat while the iteration is still converging
+    while prev_result != result || prev_running_result != running_result {
         #[cfg(bigdecimal_verif)]
         {
             // verification hook: turn non-termination into a decided outcome
@@ -39,6 +42,7 @@ pub(crate) fn impl_inverse_uint_scale(n: &BigUint, scale: i64, ctx: &Context) ->
 
         // store current result to test for convergence
         prev_result = result;
+        prev_running_result = running_result.clone();
 
         // calculate next iteration
         running_result = next_iteration(running_result).with_prec(max_precision + 2);
